@@ -15,19 +15,19 @@ def selftest(tier):
 
 
 def obligations(tier, seed):
-    t = 450 if tier == 'quick' else 2400
+    t = 450 if tier == 'quick' else 1200
     names = 'ABCP'
     sh1 = []
     for i, pre in enumerate(plan(skeletons.TEMPLATES, tier, seed + 2, 6, names=names, lengths_thorough=(3,),
                                  combos_thorough=[(True, True, True), (True, False, True)])):
-        modes = [i % 4] if tier == 'quick' else range(4)
+        modes = [i % 4] if tier == 'quick' else [i % 4, (i + 2) % 4]
         for m in modes:
             sh1.append(pre + ['mode == %d' % m])
     sh2 = []
     for i, pre in enumerate(plan(skeletons.PRESERVE_TEMPLATES, tier, seed, len(skeletons.PRESERVE_TEMPLATES), names=names,
                                  combos_quick=[(True, True, True), (True, True, False)], lengths_thorough=(3,),
                                  combos_thorough=[(True, True, True), (True, True, False)])):
-        modes = [(i % 2) * 3 + 1 if i % 2 == 0 else 4] if tier == 'quick' else range(5)
+        modes = [(i % 2) * 3 + 1 if i % 2 == 0 else 4] if tier == 'quick' else [1, 3, 4]
         for m in modes:
             sh2.append(pre + ['mode == %d' % m])
     if tier == 'quick':
